@@ -20,6 +20,11 @@ var c01XOps = []string{
 	"verify-finish-zero-key", "setup-start", "setup-verify-wrong-code", "reopen", "take-over-L-port",
 }
 
+// composite adversary operations: a fresh pair-verify start, a correctly sealed finish naming a stored
+// entity (L, or the accessory itself) with a signature made with the adversary's key, and at once, with no
+// plaintext request in between, a request sealed under the keys of that exchange
+var c01XComposite = []string{"forged-finish-naming-L-then-ciphertext", "forged-finish-naming-accessory-then-ciphertext"}
+
 func c01Alphabet(thorough bool) []string {
 	var a []string
 	a = append(a, "L:verify", "L:put-change", "app:set")
@@ -32,6 +37,9 @@ func c01Alphabet(thorough bool) []string {
 	}
 	for _, o := range c01XOps[:n2] {
 		a = append(a, "X2:"+o)
+	}
+	for _, o := range c01XComposite {
+		a = append(a, "X1:"+o)
 	}
 	a = append(a, "L:subscribe", "L:close", "L:verify-begin", "L:verify-end")
 	return a
@@ -293,6 +301,29 @@ func (r *c01Run) step(ev string) bool {
 			key = make([]byte, 32)
 		}
 		do("POST", "/pair-verify", refctl.CTPairing, refctl.VerifyM3Sealed(key, v.M3Sub(idL.ID, idX.Priv)))
+	case "forged-finish-naming-L-then-ciphertext", "forged-finish-naming-accessory-then-ciphertext":
+		v := refctl.NewVerify(refctl.Seed32(fmt.Sprintf("%s:%d", who, r.seq)))
+		m, _, err := do("POST", "/pair-verify", refctl.CTPairing, refctl.VerifyM1(v.EphPub))
+		if err != nil || m.Status != 200 || v.ParseM2(m.Body, nil) != nil {
+			break
+		}
+		cn.last = v
+		name := idL.ID
+		if strings.Contains(op, "accessory") {
+			name = v.AccID
+		}
+		do("POST", "/pair-verify", refctl.CTPairing, refctl.VerifyM3Sealed(v.EncKey, v.M3Sub(name, idX.Priv)))
+		a2c, c2a := refctl.SessionKeys(v.Shared)
+		pr := cn.k.ProbeEncrypted(a2c, c2a, refctl.BuildRequest("GET", "/accessories", "", nil))
+		cn.dead = true
+		if pr.Decrypted != nil {
+			r.fail("served-ciphertext-after-forged-finish", fmt.Sprintf("connection %s finished pair-verify with a signature that is not %s's and was then answered under the keys of that exchange (status %d)", who, name, pr.Decrypted.Status))
+			return false
+		}
+		if pr.Plain != nil && (pr.Plain.Status/100 == 2 || hasCanary(pr.Plain.Body)) {
+			r.fail("served/cipher-probe", "ciphertext probe answered with a successful plaintext response")
+			return false
+		}
 	case "setup-start":
 		do("POST", "/pair-setup", refctl.CTPairing, refctl.SetupM1())
 	case "setup-verify-wrong-code":
@@ -449,10 +480,24 @@ func (r *c01Run) finalProbes() {
 }
 
 func c01Run1(c *fw.Ctx) {
-	alpha := c01Alphabet(c.Thorough())
+	// quick: 29 symbols to depth 3. thorough: the same 29 symbols to depth 4, and the full alphabet (the second
+	// adversary connection with every operation, 39 symbols) to depth 3.
+	alpha := c01Alphabet(false)
 	depth := 3
 	if c.Thorough() {
 		depth = 4
+		full := c01Alphabet(true)
+		exploreTree(c, len(full), 3, func(h []int) bool {
+			if len(h) < 3 {
+				return false
+			}
+			var hist []string
+			for _, s := range h {
+				hist = append(hist, full[s])
+			}
+			c01Exec(c, hist)
+			return false
+		})
 	}
 	if c.Shard == 0 {
 		c.Extra("depth_bound_completed", int64(depth))
@@ -474,13 +519,34 @@ func c01Run1(c *fw.Ctx) {
 		c01Exec(c, hist)
 		return false
 	})
+	// the same alphabet from non-initial states (one level shallower)
+	for _, pre := range c01Prefixes {
+		pre := pre
+		exploreTree(c, len(alpha), depth-1, func(h []int) bool {
+			if len(h) < depth-1 {
+				return false
+			}
+			hist := append([]string{}, pre...)
+			for _, s := range h {
+				hist = append(hist, alpha[s])
+			}
+			c01Exec(c, hist)
+			return false
+		})
+	}
+}
+
+// non-initial states: L verified and subscribed (with an adversary connection already open / not yet open)
+var c01Prefixes = [][]string{
+	{"L:verify", "L:subscribe"},
+	{"X1:get-characteristics", "X2:verify-start", "L:verify", "L:subscribe", "L:put-change"},
 }
 
 func init() {
 	fw.Register(&fw.Check{
 		ID:    "C01",
 		Level: "model_checking",
-		Rule:  "every history of length 3 (quick, 26 symbols) / 4 (thorough, 35 symbols) over: two adversary connections X1, X2 (plaintext GET /accessories, GET /characteristics, PUT value, PUT ev, POST /resource, POST /pairings add / remove, pair-verify start, forged and zero-key finish, pair-setup start and wrong-code verify, a request sealed under keys derived from its own exchange, reopen, reconnect from exactly the source address and port the legitimate controller used), a legitimate controller L (verify, changing write, subscribe, close, and a pair-verify whose finish request is split with Expect: 100-continue so that its handler overlaps with the events that follow) and the application (set value), against the real transport (with /resource registered) over TCP, fresh system per history. After EVERY event: each protected operation on a connection the model holds as unverified is refused (status not 2xx, body discloses no attribute, value or canary — checked as plaintext and after decryption under every key the adversary holds), no EVENT precedes a barrier request on any adversary connection, characteristic values / every application callback counter / stored pairings are exactly what the model says; at the end of every history L (if verified) must still be served and every live adversary connection must still answer in plaintext, refuse, and not serve ciphertext under its own exchange keys. states = histories executed (each judges all its prefixes)",
+		Rule:  "every history of length 3 (quick) / 4 (thorough) over 29 symbols, in thorough also every history of length 3 over 39 symbols (second adversary connection with every operation), and every history of length 2 / 3 from two non-initial states (L verified and subscribed; the same with adversary connections already open and a value changed): two adversary connections X1, X2 (plaintext GET /accessories, GET /characteristics, PUT value, PUT ev, POST /resource, POST /pairings add / remove, pair-verify start, forged and zero-key finish, pair-setup start and wrong-code verify, a request sealed under keys derived from its own exchange, a fresh exchange finished with a correctly sealed message naming L or the accessory itself under the adversary's signature and at once followed by ciphertext under that exchange's keys, reopen, reconnect from exactly the source address and port the legitimate controller used), a legitimate controller L (verify, changing write, subscribe, close, and a pair-verify whose finish request is split with Expect: 100-continue so that its handler overlaps with the events that follow) and the application (set value), against the real transport (with /resource registered) over TCP, fresh system per history. After EVERY event: each protected operation on a connection the model holds as unverified is refused (status not 2xx, body discloses no attribute, value or canary — checked as plaintext and after decryption under every key the adversary holds), no EVENT precedes a barrier request on any adversary connection, characteristic values / every application callback counter / stored pairings are exactly what the model says; at the end of every history L (if verified) must still be served and every live adversary connection must still answer in plaintext, refuse, and not serve ciphertext under its own exchange keys. states = histories executed (each judges all its prefixes)",
 		Run:   c01Run1,
 		Replay: func(c *fw.Ctx, raw json.RawMessage) {
 			var cas c01Case
